@@ -43,6 +43,19 @@ class MGraph(Model):
     def successors(self, n):
         return iter(sorted(self._c._fanout.get(n, ())))
 
+    def number_of_nodes(self):
+        return len(self._c._attrs)
+
+    def number_of_edges(self):
+        return sum(len(v) for v in self._c._fanout.values())
+
+    def __len__(self):
+        return len(self._c._attrs)
+
+    @property
+    def edges(self):
+        return [(u, v) for u, vs in self._c._fanout.items() for v in sorted(vs)]
+
     @property
     def pred(self):
         return {n: {p: {} for p in sorted(self._c._fanin.get(n, ()))} for n in self._c._attrs}
